@@ -444,7 +444,8 @@ def rustc_sample(tier, seed, cases):
     rng = lib.rng_for(seed, PROP, "rustc")
     n = 20 if tier == "quick" else 120
     ok_bases = [c for c in cases if c["mutation"] == "none" and c["info"]["rustc_ok"]]
-    muts = [c for c in cases if c["mutation"] != "none" and "+" not in c["mutation"] and c["info"]["rustc_ok"]]
+    muts = [c for c in cases if c["mutation"] != "none" and "+" not in c["mutation"] and c["info"]["rustc_ok"]
+            and not any(e.get("any_of") for e in c["expect"])]      # constructs the property does not speak about: FRONT vs model only
     rng.shuffle(ok_bases)
     rng.shuffle(muts)
     # well-formed programs whose binders bind NEW variables below stacks of pattern constructors: two of them in every sample
@@ -601,6 +602,8 @@ def tie(tier, seed, replay):
             if not r["compiled"]:
                 mism.append(dict(case=dict(case=small), impl=got, model=mv, spec=["ok"], kind="impl_violates_spec", known=known,
                                  what="a well-formed generated program does not compile with rustc (%s!, %s): %s" % (r["kind"], c["mutation"], [e["text"] for e in r["errors"][:2]])))
+            continue
+        if r["compiled"] and "ok" in want:
             continue
         if r["compiled"]:
             mism.append(dict(case=dict(case=small), impl=got, model=mv, spec=sorted(want), kind="impl_violates_spec",
